@@ -320,7 +320,8 @@ pub fn run(case: &Case) -> Observed {
                     }
                 }
                 Ev::Tick => {
-                    tokio::time::sleep(Duration::from_millis(case.idle_ms.max(1) as u64)).await;
+                    // one heartbeat period: half the idle-time-out the peer advertised (C17)
+                    tokio::time::sleep(Duration::from_millis((case.idle_ms / 2).max(1) as u64)).await;
                 }
             }
             drain(&mut peer, &mut out, quiet).await;
@@ -699,6 +700,9 @@ pub fn main(opts: &Opts) {
                     for o in &obs.per_event {
                         iw.extend(o.iter().map(|k| if k.starts_with('f') { k.trim_end_matches('e').to_string() } else { k.clone() }));
                     }
+                    // how many heartbeats fall into a stretch of (virtual) time is C17's matter: a run of empty frames counts as one
+                    mw.dedup_by(|a, b| a == "empty" && b == "empty");
+                    iw.dedup_by(|a, b| a == "empty" && b == "empty");
                     let mres = m[m.len() - 1].clone();
                     let ires = if obs.result.starts_with("open-error") { "open-error".to_string() } else { obs.result.clone() };
                     let res_ok = mres == ires || (ires == "running" && mres == "running") || (ires == "pending" && mres == "running");
